@@ -815,6 +815,52 @@ func (e *Env) call(x *ECall) CV {
 			return CV{k: cvStr, arr: a.t, off: "0", n: a.n}
 		}
 		unsupp("contract: str() of kind %d", a.k)
+	case "events", "evis", "evarg":
+		// the global sequence of interface-method calls made so far
+		if fx.ghost == nil {
+			fx.ghost = map[string]*Cell{}
+		}
+		gv := func(name string) (Val, bool) {
+			c := fx.ghost[name]
+			if c == nil {
+				return Val{}, false
+			}
+			if v, live := e.st.cells[c]; live {
+				return v, true
+			}
+			if c.ghostInit != nil {
+				return *c.ghostInit, true
+			}
+			return Val{}, false
+		}
+		switch x.Fn {
+		case "events":
+			if v, ok := gv("evn"); ok {
+				return cvOf(v)
+			}
+			return CV{k: cvInt, t: "0"}
+		case "evis":
+			s, ok := x.Args[1].(*EStr)
+			if !ok {
+				unsupp("contract: evis(k, \"iface.Method\")")
+			}
+			v, ok2 := gv("evkind")
+			if !ok2 {
+				return CV{k: cvBool, t: "false"}
+			}
+			return CV{k: cvBool, t: eq(sel(v.ts[0], arg(0).asInt()), num(int64(fx.eng.eventID(s.V))))}
+		default:
+			s, ok := x.Args[0].(*EStr)
+			idx, ok2 := x.Args[2].(*EInt)
+			if !ok || !ok2 {
+				unsupp("contract: evarg(\"iface.Method\", k, <literal argument index>)")
+			}
+			v, ok3 := gv("evarg:" + s.V + ":" + idx.V)
+			if !ok3 {
+				unsupp("contract: no call of %s recorded", s.V)
+			}
+			return cvOf(v.arrayGet(arg(1).asInt()))
+		}
 	case "cbcalls", "cbarg", "cbres":
 		if fx.ghost == nil {
 			fx.ghost = map[string]*Cell{}
